@@ -106,7 +106,16 @@ def parsable_gating(code: str) -> bool:
     """True when exactness of `parsable` is gated for this text (DESIGN 7.3): the alphabet on
     which 'one complete known SGR parameter group' and the implementation's int() leniency
     cannot reasonably disagree."""
-    return all((c.isascii() and (c.isdigit() or c in ';:<=>?' or 0x40 <= ord(c) <= 0x7E)) for c in code)
+    for i, c in enumerate(code):
+        if c == '-':
+            # a minus sign directly before a non-zero digit: the value is negative whatever the reading, so it is
+            # certainly not "0-255" ('-0' and a dangling '-' stay ungated)
+            if not (i + 1 < len(code) and code[i + 1] in '123456789'):
+                return False
+            continue
+        if not (c.isascii() and (c.isdigit() or c in ';:<=>?' or 0x40 <= ord(c) <= 0x7E)):
+            return False
+    return True
 
 
 def all_wf(cells) -> bool:
